@@ -129,6 +129,8 @@ structure St where
   answered : List AnsLog := []
   /-- ghost: every translation request sent -/
   asked : List TReq := []
+  /-- ghost: (id, epoch) of every translation request sent -/
+  askedAt : List (Nat × Nat) := []
   /-- ghost: every translation reply delivered to the translation port -/
   tdel : List TRsp := []
   /-- ghost: every memory response delivered to the bottom port -/
@@ -174,6 +176,7 @@ def translate (c : Cfg) (s : St) : St × Bool :=
         ({ s with trOut := s.trOut ++ [q], txs := s.txs ++ [⟨[a], q, none, false⟩],
                   nextT := s.nextT + 1, topIn := rest,
                   received := (a, s.epoch) :: s.received, asked := q :: s.asked,
+                  askedAt := (q.tid, s.epoch) :: s.askedAt,
                   ev := s!"A{a.id}" :: s!"Q{q.tid}:{q.pid}:{toHex q.vpage}" :: s.ev }, true)
       else (s, false)
 
